@@ -213,10 +213,9 @@ func checkC12(r *core.Run) {
 			r.Sites++
 			bits := map[string]int{"str8": 8, "str16": 16, "str32": 32, "str64": 64}[o.Kind]
 			limit := constant.MakeInt64((int64(1) << (bits - 1)) - 1)
-			tv := constant.MakeFromLiteral(o.Trunc, token.INT, 0)
-			le := tv.Kind() == constant.Int && constant.Compare(tv, token.LEQ, limit)
-			r.Check(le, "C12.bound", name+" "+o.Field+" truncated within its "+fmt.Sprint(bits)+"-bit prefix", w.Pos(o.Pos), "truncated to "+o.Trunc+" <= "+limit.String(),
-				"the text is truncated to "+o.Trunc+" bytes but written with a "+fmt.Sprint(bits)+"-bit length prefix (max "+limit.String()+"): a longer text wraps the length and every following field is decoded from the wrong offset")
+			ok, why := byteBounded(o.Fn, o.Arg, o.Pos, limit)
+			r.Check(ok, "C12.bound", name+" "+o.Field+" truncated within its "+fmt.Sprint(bits)+"-bit prefix", w.Pos(o.Pos), why,
+				"the text written with a "+fmt.Sprint(bits)+"-bit length prefix (max "+limit.String()+" bytes) is not bounded to that many bytes on every path ("+why+"): a longer text wraps the length and every following field is decoded from the wrong offset")
 		}
 	}
 	// every message type used by non-codec code has a codec
@@ -350,4 +349,210 @@ func c12Frame(r *core.Run) {
 	})
 	r.Sites++
 	r.Check(reads16 && passes2 && strings.Contains(dispatch, "Int16"), "C12.frame", "pkg/protocol/codec.(CodecManager).Decode dispatches on the 16-bit code and passes in[2:]", w.Pos(dec.Decl.Pos()), "type code read, codec chosen by it, body = in[2:]", "Decode does not (read a 16-bit code, choose the codec by it, pass in[2:])")
+}
+
+// byteBounded decides whether the value written at call position `at` has a byte length <= limit on every
+// path. Accepted idiom (the only one the codecs use, confirmed by reading all seven sites):
+//
+//	v := E; if len(E) > K { v = E[:K2] }; Write(v)        K, K2 <= limit, E a string or []byte
+//
+// and the direct forms E[:K] and E[:min(len(E), K)]. Lengths must be byte lengths: a slice or len of a
+// []rune (or any non-byte sequence) bounds characters, not bytes.
+func byteBounded(fn *core.FuncInfo, arg ast.Expr, at token.Pos, limit constant.Value) (bool, string) {
+	info := fn.Pkg.TypesInfo
+	isBytes := func(e ast.Expr) bool {
+		t := info.TypeOf(e)
+		if t == nil {
+			return false
+		}
+		switch u := t.Underlying().(type) {
+		case *types.Basic:
+			return u.Info()&types.IsString != 0
+		case *types.Slice:
+			b, ok := u.Elem().Underlying().(*types.Basic)
+			return ok && b.Kind() == types.Byte
+		}
+		return false
+	}
+	constLE := func(e ast.Expr, minus int64) (string, bool) {
+		c := core.ConstVal(info, e)
+		if c == nil || c.Kind() != constant.Int {
+			return "", false
+		}
+		c2 := constant.BinaryOp(c, token.SUB, constant.MakeInt64(minus))
+		return c.ExactString(), constant.Compare(c2, token.LEQ, limit)
+	}
+	// sliceBound: e is X[:K] with byte-indexed X and K <= limit (or min(len(X), K)).
+	sliceBound := func(e ast.Expr) (bool, string) {
+		se, ok := ast.Unparen(e).(*ast.SliceExpr)
+		if !ok || se.High == nil {
+			return false, ""
+		}
+		if se.Low != nil {
+			if c := core.ConstVal(info, se.Low); c == nil || constant.Sign(c) < 0 {
+				return false, "non-constant lower slice bound"
+			}
+		}
+		if !isBytes(se.X) {
+			return false, "'" + core.ExprString(se.X) + "' is sliced by elements of type " + info.TypeOf(se.X).String() + ", not by bytes"
+		}
+		if k, ok := constLE(se.High, 0); ok {
+			return true, "sliced to " + k + " bytes"
+		} else if k != "" {
+			return false, "sliced to " + k + " bytes, beyond the limit"
+		}
+		if c, ok := se.High.(*ast.CallExpr); ok {
+			if id, ok := c.Fun.(*ast.Ident); ok && id.Name == "min" && info.Uses[id] == types.Universe.Lookup("min") {
+				for _, a := range c.Args {
+					if k, ok := constLE(a, 0); ok {
+						return true, "sliced to min(.., " + k + ") bytes"
+					}
+				}
+			}
+		}
+		return false, "slice bound is not a constant within the limit"
+	}
+	if ok, why := sliceBound(arg); ok {
+		return true, why
+	}
+	id, ok := ast.Unparen(arg).(*ast.Ident)
+	if !ok {
+		return false, "the written value '" + core.ExprString(arg) + "' is neither a bounded slice nor a local holding one"
+	}
+	v, _ := info.Uses[id].(*types.Var)
+	if v == nil || v.IsField() || isParam(fn, v) {
+		return false, "the written value '" + id.Name + "' is not a local variable"
+	}
+	// collect the definitions of v before the write with their enclosing statements
+	type def struct {
+		rhs   ast.Expr
+		stack []ast.Node
+	}
+	var defs []def
+	var stack []ast.Node
+	ast.Inspect(fn.Decl.Body, func(n ast.Node) bool {
+		if n == nil {
+			stack = stack[:len(stack)-1]
+			return true
+		}
+		stack = append(stack, n)
+		rec := func(rhs ast.Expr) {
+			defs = append(defs, def{rhs, append([]ast.Node(nil), stack...)})
+		}
+		switch x := n.(type) {
+		case *ast.AssignStmt:
+			for i, l := range x.Lhs {
+				if core.ObjOf(info, l) == v {
+					if len(x.Rhs) == len(x.Lhs) && (x.Tok == token.ASSIGN || x.Tok == token.DEFINE) {
+						rec(x.Rhs[i])
+					} else {
+						rec(nil)
+					}
+				}
+			}
+		case *ast.ValueSpec:
+			for i, nm := range x.Names {
+				if info.Defs[nm] == v {
+					if len(x.Values) == len(x.Names) {
+						rec(x.Values[i])
+					} else {
+						rec(nil)
+					}
+				}
+			}
+		case *ast.UnaryExpr:
+			if x.Op == token.AND && core.ObjOf(info, x.X) == v {
+				rec(nil) // address taken: writes through the pointer are not tracked
+			}
+		}
+		return true
+	})
+	var base *def
+	var notes []string
+	for i := range defs {
+		d := &defs[i]
+		if d.rhs == nil {
+			return false, "'" + id.Name + "' is assigned in a form the rule does not follow"
+		}
+		if d.rhs.Pos() > at {
+			continue
+		}
+		if ok, why := sliceBound(d.rhs); ok {
+			notes = append(notes, why)
+			continue
+		} else if _, isSlice := ast.Unparen(d.rhs).(*ast.SliceExpr); isSlice {
+			return false, why
+		}
+		if base != nil {
+			return false, "'" + id.Name + "' has more than one unbounded definition"
+		}
+		base = d
+	}
+	if base == nil {
+		if len(notes) == 0 {
+			return false, "no definition of '" + id.Name + "' found"
+		}
+		return true, strings.Join(notes, ", ")
+	}
+	if !isBytes(base.rhs) {
+		return false, "'" + id.Name + "' starts as a value of type " + info.TypeOf(base.rhs).String()
+	}
+	// the statement list holding the base definition must continue with `if len(E) > K { v = E[:K2] }`
+	baseText := core.ExprString(base.rhs)
+	var list []ast.Stmt
+	var baseStmt ast.Node
+	for i := len(base.stack) - 1; i >= 0; i-- {
+		if b, ok := base.stack[i].(*ast.BlockStmt); ok {
+			list = b.List
+			baseStmt = base.stack[i+1]
+			break
+		}
+	}
+	seen := false
+	for _, st := range list {
+		if st == baseStmt {
+			seen = true
+			continue
+		}
+		if !seen || st.Pos() > at {
+			continue
+		}
+		ifs, ok := st.(*ast.IfStmt)
+		if !ok || ifs.Else != nil {
+			continue
+		}
+		be, ok := ast.Unparen(ifs.Cond).(*ast.BinaryExpr)
+		if !ok || (be.Op != token.GTR && be.Op != token.GEQ) {
+			continue
+		}
+		call, ok := ast.Unparen(be.X).(*ast.CallExpr)
+		if !ok || len(call.Args) != 1 {
+			continue
+		}
+		if fid, ok := call.Fun.(*ast.Ident); !ok || info.Uses[fid] != types.Universe.Lookup("len") {
+			continue
+		}
+		assigns := false
+		for _, d := range defs {
+			if d.rhs != nil && d.rhs.Pos() >= ifs.Body.Pos() && d.rhs.End() <= ifs.Body.End() {
+				assigns = true
+			}
+		}
+		if !assigns {
+			continue
+		}
+		if core.ExprString(call.Args[0]) != baseText || !isBytes(call.Args[0]) {
+			return false, "the guard measures len(" + core.ExprString(call.Args[0]) + ") (" + info.TypeOf(call.Args[0]).String() + "), not the byte length of the written text '" + baseText + "'"
+		}
+		minus := int64(0)
+		if be.Op == token.GEQ {
+			minus = 1
+		}
+		k, ok := constLE(be.Y, minus)
+		if !ok {
+			return false, "the untruncated text passes the guard with up to " + k + " bytes"
+		}
+		return true, "'" + baseText + "' kept when len <= " + k + ", otherwise " + strings.Join(notes, ", ")
+	}
+	return false, "'" + id.Name + "' holds the whole text '" + baseText + "' unless a truncation the rule can follow intervenes; none found"
 }
